@@ -23,6 +23,8 @@ func init() {
 			"R3 purity: no store / copy in the call closure of LaunchDigest and UnsignedSnp writes through the image parameter. " +
 			"R4 determinism: the closure of LaunchDigest calls no clock, random source or environment lookup and has no map iteration whose body extends the measurement. " +
 			"R6 declared order: every sort call in the call closure of LaunchDigest sorts a slice allocated in the same function (a copy), so the SNP metadata sections reach the measurement in the order the firmware declares them. " +
+			"R7 one boot VMSA per digest (ESP from UnsignedSnp and LaunchDigest): between two allocations of a measurement object the ROM is measured at most once and at most one VMSA list that starts with the boot processor's VMSA is measured (an incremental computation that re-measures a full list per count is reported; measuring a tail list[k:] is not). " +
+			"R1 also: metadata ranges are measured only through the range primitive, over [section.Address, +section.Length) of one section; the single-page primitives are not called from outside the range primitives. " +
 			"R5 AP reset vector: where the SEV-ES reset block is decoded, its first result is stored into VmcbSaveArea.Rip and its second into VmcbSeg.Base of an object other than the boot processor's VMSA, by stores that dominate every successful return (a proto merge or conditional copy, which skips zero halves, is not such a store). " +
 			"R8 (= C06.R5/R7/R8, SEV constructs) every per-count launch digest is computed with options whose vCPU count is that count and whose product is the requested one, set in the same loop iteration. " +
 			"Not covered (value clauses): equality with the AMD digest chain, PAGE_INFO field values, VMSA defaults, GPA truncation constants, rejection of each malformed-metadata class. PAGE_INFO/VMSA layout is decided under C18.",
@@ -184,6 +186,141 @@ func runC04(c *Ctx) {
 		}
 	}
 
+	// ---------------- R7 one ROM and one boot-processor VMSA per measurement object ----------------
+	{
+		const (
+			bRom1 uint = iota
+			bList
+		)
+		spbPath := repoPath("proto/sev")
+		isVmsaList := func(t types.Type) bool {
+			sl, ok := t.Underlying().(*types.Slice)
+			return ok && namedIs(sl.Elem(), spbPath, "VmcbSaveArea")
+		}
+		vmsaReach := c.relevantSet(func(in ssa.Instruction) bool { id, ok := classify(in); return ok && id == evVmsa })
+		// a VMSA-list measurement: a call of a repo function (not a measurement method) that takes a VMSA list and
+		// reaches a VMSA update
+		listArg := func(call ssa.CallInstruction) ssa.Value {
+			g := call.Common().StaticCallee()
+			if g == nil || !vmsaReach[g] || (g.Signature.Recv() != nil && namedIs(g.Signature.Recv().Type(), sevPkg, "SnpMeasurement")) {
+				return nil
+			}
+			for i, a := range call.Common().Args {
+				if i < g.Signature.Params().Len() && isVmsaList(g.Signature.Params().At(i).Type()) {
+					return a
+				}
+			}
+			return nil
+		}
+		nLists := 0
+		r7 := &esp.Rule{Name: "C04.R7"}
+		r7.Relevant = func(f *ssa.Function) bool {
+			if !relevant[f] || (f.Signature.Recv() != nil && namedIs(f.Signature.Recv().Type(), sevPkg, "SnpMeasurement")) {
+				return false
+			}
+			// the list measurement itself is one event
+			for i := 0; i < f.Signature.Params().Len(); i++ {
+				if isVmsaList(f.Signature.Params().At(i).Type()) && vmsaReach[f] {
+					return false
+				}
+			}
+			return true
+		}
+		r7.Match = func(in ssa.Instruction) []esp.Ev {
+			switch v := in.(type) {
+			case *ssa.Alloc:
+				if namedIs(v.Type(), sevPkg, "SnpMeasurement") {
+					return []esp.Ev{{ID: 0, Name: "new measurement object", ErrIdx: -1, BoolIdx: -1}}
+				}
+			case ssa.CallInstruction:
+				if id, ok := classify(in); ok && id == evRom {
+					return []esp.Ev{{ID: 1, Name: "ROM pages", ErrIdx: -1, BoolIdx: -1}}
+				}
+				if a := listArg(v); a != nil {
+					// a tail x[k:] (k not the constant 0) does not begin with the boot processor
+					if sx, ok := a.(*ssa.Slice); ok && sx.Low != nil {
+						if k, isK := sx.Low.(*ssa.Const); !isK || k.Int64() != 0 {
+							return nil
+						}
+					}
+					nLists++
+					return []esp.Ev{{ID: 2, Name: "VMSA list (boot processor first)", ErrIdx: -1, BoolIdx: -1}}
+				}
+			}
+			return nil
+		}
+		r7.Step = func(x *esp.Ctx, s esp.State, ev esp.Ev, ph esp.Phase) (esp.State, string) {
+			if ph != esp.AtCall {
+				return s, ""
+			}
+			switch ev.ID {
+			case 0:
+				return s.Clear(bRom1).Clear(bList), ""
+			case 1:
+				if s.Has(bRom1) {
+					return s, "R7: the ROM is measured a second time into a measurement object that already holds it"
+				}
+				return s.Set(bRom1), ""
+			case 2:
+				if s.Has(bList) {
+					return s, "R7: a second VMSA list beginning with the boot processor's VMSA is measured into a measurement object that already holds one: the digest for a larger vCPU count would contain several boot-processor VMSAs"
+				}
+				return s.Set(bList), ""
+			}
+			return s, ""
+		}
+		n7 := 0
+		for _, root := range []*ssa.Function{us, ld} {
+			e7 := c.engine(r7)
+			e7.Run(root, esp.State{})
+			n7 += c.reportEngine(e7, "R7", func(v *esp.Violation) string { return load.FuncName(v.Fn) + ":one boot VMSA per digest" })
+		}
+		c.S.Floor("R7", "VMSA list measurement sites", 1, nLists)
+		if n7 == 0 {
+			c.S.OK("R7", "sev.UnsignedSnp:one boot VMSA per digest", c.pos(us.Pos()), "every measurement object receives the ROM once and one VMSA list that begins with the boot processor", true)
+		}
+	}
+
+	// metadata ranges: measured through the range primitive over [section.Address, +section.Length) of one section;
+	// the single-page primitives are internals of the range primitives (which carry the range/alignment check)
+	abiPkgPath := repoPath("ovmf/abi")
+	nZeroSites := 0
+	for f := range relevant {
+		if f.Signature.Recv() != nil && namedIs(f.Signature.Recv().Type(), sevPkg, "SnpMeasurement") {
+			continue
+		}
+		for _, call := range callsIn(f, func(call ssa.CallInstruction) bool {
+			return isMeasMethod(call, "ZeroContentUpdate") || isMeasMethod(call, "ZeroContentUpdate4K") || isMeasMethod(call, "Update4K")
+		}) {
+			if !isMeasMethod(call, "ZeroContentUpdate") {
+				c.S.Bad("R1", load.FuncName(f)+":single-page primitive", c.pos(call.Pos()), "a single-page measurement primitive is called from outside the range primitives: only one page of the declared range is measured and its address range / alignment is not checked")
+				continue
+			}
+			nZeroSites++
+			args := call.Common().Args
+			fieldBase := func(v ssa.Value, name string) ssa.Value {
+				v = stripConv(v)
+				if !flow.IsFieldLoad(v, abiPkgPath, "SevMetadataSection", name) {
+					return nil
+				}
+				switch x := v.(type) {
+				case *ssa.UnOp:
+					if fa, ok := x.X.(*ssa.FieldAddr); ok {
+						return fa.X
+					}
+				case *ssa.Field:
+					return x.X
+				}
+				return nil
+			}
+			a, l := fieldBase(args[1], "Address"), fieldBase(args[2], "Length")
+			c.S.Check(a != nil && l != nil && a == l, "R1", load.FuncName(f)+":metadata range", c.pos(call.Pos()),
+				"metadata pages are measured over [section.Address, +section.Length) of one declared section",
+				"the zero-content measurement does not cover the declared range of one section (address from section.Address and size from section.Length of the same section)")
+		}
+	}
+	c.S.Floor("R1", "metadata range measurement sites", 1, nZeroSites)
+
 	// ---------------- R2 kind table ----------------
 	kinds := map[int64]string{}
 	if ap := c.P.Pkg("ovmf/abi"); ap != nil {
@@ -196,6 +333,38 @@ func runC04(c *Ctx) {
 	}
 	want := map[string]int64{"SevUnmeasuredSection": pt("PageTypeUnmeasured"), "SevSecretSection": pt("PageTypeSecret"), "SevCpuidSection": pt("PageTypeCpuid"), "SevSvsmCaaSection": pt("PageTypeZero")}
 	nTables := 0
+	tableIn := map[*ssa.Function]bool{}
+	checkTable := func(f *ssa.Function, pos token.Pos, mapping map[string]int64) {
+		nTables++
+		tableIn[f] = true
+		var diffs []string
+		for nm, v := range want {
+			got, ok := mapping[nm]
+			if !ok {
+				diffs = append(diffs, nm+" is not handled")
+			} else if got != v {
+				diffs = append(diffs, fmt.Sprintf("%s maps to page type %d, want %d", nm, got, v))
+			}
+		}
+		for nm := range mapping {
+			if _, ok := want[nm]; !ok {
+				diffs = append(diffs, nm+" is accepted but is not a declared section kind with a documented page type")
+			}
+		}
+		for v, nm := range kinds {
+			if _, ok := want[nm]; !ok {
+				diffs = append(diffs, fmt.Sprintf("ovmf/abi declares %s=%d, which the frozen mapping table of this rule does not know", nm, v))
+			}
+		}
+		sort.Strings(diffs)
+		c.S.Check(len(diffs) == 0, "R2", load.FuncName(f)+":kind→page type", c.pos(pos), "the four section kinds map to unmeasured/secret/cpuid/zero", strings.Join(diffs, "; "))
+		// default rejects
+		c.S.Check(chainDefaultIsError(f, func(v ssa.Value) bool {
+			return sl.Derives(v, func(x ssa.Value) bool {
+				return flow.IsFieldLoad(x, repoPath("ovmf/abi"), "SevMetadataSection", "Kind")
+			})
+		}), "R2", load.FuncName(f)+":unknown kind", c.pos(pos), "an unknown section kind is an error", "an unknown section kind is not rejected")
+	}
 	for f := range relevant {
 		if load.RelPkg(f) != "sev" {
 			continue
@@ -236,35 +405,49 @@ func runC04(c *Ctx) {
 				if len(mapping) < 2 {
 					continue
 				}
-				nTables++
-				var diffs []string
-				for nm, v := range want {
-					got, ok := mapping[nm]
-					if !ok {
-						diffs = append(diffs, nm+" is not handled")
-					} else if got != v {
-						diffs = append(diffs, fmt.Sprintf("%s maps to page type %d, want %d", nm, got, v))
-					}
-				}
-				for nm := range mapping {
-					if _, ok := want[nm]; !ok {
-						diffs = append(diffs, nm+" is accepted but is not a declared section kind with a documented page type")
-					}
-				}
-				for v, nm := range kinds {
-					if _, ok := want[nm]; !ok {
-						diffs = append(diffs, fmt.Sprintf("ovmf/abi declares %s=%d, which the frozen mapping table of this rule does not know", nm, v))
-					}
-				}
-				sort.Strings(diffs)
-				c.S.Check(len(diffs) == 0, "R2", load.FuncName(f)+":kind→page type", c.pos(phi.Pos()), "the four section kinds map to unmeasured/secret/cpuid/zero", strings.Join(diffs, "; "))
-				// default rejects
-				c.S.Check(chainDefaultIsError(f, func(v ssa.Value) bool {
-					return sl.Derives(v, func(x ssa.Value) bool {
-						return flow.IsFieldLoad(x, repoPath("ovmf/abi"), "SevMetadataSection", "Kind")
-					})
-				}), "R2", load.FuncName(f)+":unknown kind", c.pos(phi.Pos()), "an unknown section kind is an error", "an unknown section kind is not rejected")
+				checkTable(f, phi.Pos(), mapping)
 			}
+		}
+	}
+	// direct dispatch: page-type constants passed at call sites that lie behind Kind == k
+	for f := range relevant {
+		if load.RelPkg(f) != "sev" || tableIn[f] {
+			continue
+		}
+		mapping := map[string]int64{}
+		var first token.Pos
+		for _, call := range callsIn(f, func(call ssa.CallInstruction) bool {
+			return isMeasMethod(call, "ZeroContentUpdate") || isMeasMethod(call, "ZeroContentUpdate4K")
+		}) {
+			args := call.Common().Args
+			k, isK := args[len(args)-1].(*ssa.Const)
+			if !isK || k.Value == nil {
+				continue
+			}
+			blk := call.(ssa.Instruction).Block()
+			for _, cf := range dominatingConds(blk) {
+				bo, ok := cf.Cond.(*ssa.BinOp)
+				if !ok || bo.Op != token.EQL || !cf.Val {
+					continue
+				}
+				kc, ok := bo.Y.(*ssa.Const)
+				if !ok || kc.Value == nil || !sl.Derives(bo.X, func(v ssa.Value) bool {
+					return flow.IsFieldLoad(v, repoPath("ovmf/abi"), "SevMetadataSection", "Kind")
+				}) {
+					continue
+				}
+				if nm, ok := kinds[kc.Int64()]; ok {
+					mapping[nm] = k.Int64()
+				} else {
+					mapping[fmt.Sprintf("kind %d", kc.Int64())] = k.Int64()
+				}
+				if !first.IsValid() {
+					first = call.Pos()
+				}
+			}
+		}
+		if len(mapping) >= 2 {
+			checkTable(f, first, mapping)
 		}
 	}
 	c.S.Floor("R2", "section-kind to page-type tables", 1, nTables)
